@@ -232,12 +232,17 @@ def emit_heap_frames(c, I, S, ctx, tagsof):
     mods = c.modifies(I, S)
     bad = []
     for w in ctx.writes:
-        if w[0] in ("field", "list", "dict", "sdict", "cell") and not any(w[1] is m for m in mods):
+        if w[0] in ("field", "list", "dict", "sdict", "cell", "set") and not any(w[1] is m for m in mods):
             bad.append(f"{w[0]}:{getattr(w[1], 'label', None) or w[1]!r}" + (f".{w[2]}" if len(w) > 2 else ""))
     inf = tagsof("frame:heap")
     inf["tags"] = sorted(set(inf["tags"]) | set(c.all_props()))
     inf["undeclared_writes"] = sorted(set(bad))
     ctx.oblige(f"{c.qualname}:frame:writes-within-modifies", z3.BoolVal(not bad), kind="frame", info=inf)
+    hr = sorted({f"{getattr(w[1], 'label', None) or w[1]!r}.{w[2]}" for w in ctx.writes if w[0] == "hidden-read"})
+    inf = tagsof("frame:heap")
+    inf["tags"] = sorted(set(inf["tags"]) | set(c.all_props()))
+    inf["hidden_state_read"] = hr
+    ctx.oblige(f"{c.qualname}:frame:reads-no-hidden-mutable-state", z3.BoolVal(not hr), kind="frame", info=inf)
     # global heap frame (C19): class attributes / module globals written on this path
     gw = sorted({f"{w[1]}.{w[2]}" for w in ctx.writes if w[0] == "classattr"
                  and w[1] not in getattr(c, "global_writes_allowed", ())})
